@@ -69,7 +69,8 @@ def table():
             npint=(lambda r: lambda x: x ** np.int64(r))(r))
     for r in (1, 2, 3, 4):          # polynomials are smooth at 0: base points with exact zeros, python and numpy integer exponents
         add('pow_int_zero_base_%d' % r, (lambda r: lambda x: x ** r)(r), 'Rzero', None, op=(lambda r: lambda x: x ** r)(r),
-            npint=(lambda r: lambda x: x ** np.int64(r))(r), npint32=(lambda r: lambda x: x ** np.int32(r))(r))
+            npint=(lambda r: lambda x: x ** np.int64(r))(r), npint32=(lambda r: lambda x: x ** np.int32(r))(r),
+            zerod=(lambda r: lambda x: x ** np.array(r))(r), zerod16=(lambda r: lambda x: x ** np.array(r, dtype=np.int16))(r))
     add('square_zero_base', lambda x: x * x, 'Rzero', None, glob=algopy.square, mul=lambda x: x * x)
     for r in (-1, -2, -3):
         add('pow_negint_%d' % (-r), (lambda r: lambda x: x ** r)(r), 'nz', 'nz', op=(lambda r: lambda x: x ** r)(r))
@@ -117,7 +118,8 @@ def cases(tier, seed):
                         'fn': name, 'D': D, 'pattern': pat, 'P': int(r.choice(Ps)),
                         'shape': list(shapes[int(r.integers(len(shapes)))]), 'cplx': bool(r.integers(2)),
                         'entry': int(r.integers(12)),
-                        'layout': ['C', 'C', 'F', 'T', 'strided', 'reversed'][int(r.integers(6))]}})
+                        'layout': ['C', 'C', 'F', 'T', 'strided', 'reversed', 'unaligned'][int(r.integers(7))],
+                        'single': bool(r.random() < 0.2 and D <= 5 and pat in ('random', 'zeros_high', 'x1_zero', 'last_only'))}})
     return out + extreme_cases(tier, seed)
 
 
@@ -255,6 +257,10 @@ def run_case(ctx, case):
     if pat == 'big' and D > 6:
         # recurrences that divide by x_0 amplify rounding like (|x_k|/|x_0|)^d: keep |x_k| <= 3 at high order (guard of section 2.4)
         data[1:] *= 0.1
+    single = bool(p.get('single')) and not name.startswith(('hyperu', 'polygamma', 'psi', 'gammaln'))
+    if single:
+        # single precision (float32 / complex64) polynomials: the result must carry the same information, to single accuracy
+        data = data.astype(np.complex64 if cplx else np.float32)
     ents = sorted(t['entries'].items())
     ename, f = ents[p['entry'] % len(ents)]
     layout = p.get('layout', 'C')
@@ -290,7 +296,7 @@ def run_case(ctx, case):
                 pass
             e = O.err_over_maj(list(got), ref, maj)
             worst = max(worst, e)
-            tau = TAU_FN.get(name.split('_')[0], TAU)
+            tau = TAU_FN.get(name.split('_')[0], TAU) if not single else 3e-4
             if not (e <= tau):
                 d_bad = next(d for d in range(D) if not abs(O.num(got[d]) - ref[d]) <= tau * (maj[d] + mp.mpf(10) ** -280))
                 ctx.violation('%s:coeff:%s:%s' % (name, 'complex' if cplx else 'real', 'd0' if d_bad == 0 else 'd>=1'),
@@ -307,6 +313,7 @@ def run_case(ctx, case):
         x += UTPM(data2 - x.data)
     else:
         x[...] = UTPM(data2.copy())
+    data2 = np.array(x.data, copy=True)          # what the object holds now (single precision objects round the update)
     try:
         y2 = _unwrap(f(x), D, P, shape)
     except Exception as e:
@@ -314,7 +321,7 @@ def run_case(ctx, case):
     pp = int(rng.integers(P)); idx = _elements(shape, rng, 1)[0]
     ref, maj = O.series(t['mp'], list(data2[(slice(None), pp) + idx]))
     e2 = O.err_over_maj(list(y2[(slice(None), pp) + idx]), ref, maj) if y2 is not None and y2.shape == data2.shape else float('inf')
-    if not e2 <= TAU_FN.get(name.split('_')[0], TAU):
+    if not e2 <= (TAU_FN.get(name.split('_')[0], TAU) if not single else 3e-4):
         ctx.violation('%s:stale-result-after-inplace-update' % name, {'fn': name, 'entry': ename, 'D': D, 'P': P, 'shape': shape, 'update': ['data[...]=', '+=', 'x[...]='][how],
                                                                       'err_over_majorant': e2}); return
     ctx.ok(name, cls, noise=worst,
